@@ -3,6 +3,8 @@
 package props
 
 import (
+	"verif/harness/tamper"
+	"math/rand"
 	"encoding/json"
 	"fmt"
 	"os"
@@ -27,10 +29,25 @@ type ConcCase struct {
 	Readers   bool     `json:"readers"`
 	Junk      bool     `json:"junk"`
 	LateStart bool     `json:"late_start"`
+	// Fault, when set, alters one field (+1) of the messages of one type from party From to party To: a round of the
+	// recipient fails while other deliveries to it are in flight (an abort must be final also under concurrency)
+	Fault *ConcFault `json:"fault,omitempty"`
+}
+
+type ConcFault struct {
+	Type  string `json:"type"`
+	Field string `json:"field"`
+	Index int    `json:"index"`
+	From  int    `json:"from"`
+	To    int    `json:"to"`
 }
 
 func (c ConcCase) ID() string {
-	return fmt.Sprintf("%s|w%d|r%v|j%v|l%v|%d", c.Sc.GroupKey(), c.Workers, c.Readers, c.Junk, c.LateStart, c.Sc.Seed)
+	f := ""
+	if c.Fault != nil {
+		f = fmt.Sprintf("|fault:%s.%s:%d>%d", c.Fault.Type, c.Fault.Field, c.Fault.From, c.Fault.To)
+	}
+	return fmt.Sprintf("%s|w%d|r%v|j%v|l%v|%d%s", c.Sc.GroupKey(), c.Workers, c.Readers, c.Junk, c.LateStart, c.Sc.Seed, f)
 }
 
 type ConcOutcome struct {
@@ -56,6 +73,19 @@ func execConc(cc ConcCase) (*ConcOutcome, error) {
 	if err != nil {
 		return nil, err
 	}
+	if f := cc.Fault; f != nil {
+		frng := rand.New(rand.NewSource(cc.Sc.Seed))
+		s.Mutate = func(it *pump.Item) []byte {
+			if it.Msg.Type != f.Type || it.From.G != f.From || it.To.G != f.To {
+				return nil
+			}
+			w, _, err := tamper.Apply(it.Wire, tamper.Spec{Field: f.Field, Index: f.Index, Kind: "plus1"}, frng, nil)
+			if err != nil {
+				return nil
+			}
+			return w
+		}
+	}
 	r := s.RunConcurrent(pump.ConcOpts{Workers: cc.Workers, Readers: cc.Readers, Junk: cc.Junk, LateStart: cc.LateStart, Seed: cc.Sc.Seed, Timeout: 150 * time.Second})
 	out := &ConcOutcome{Events: r.Events, MutexBad: r.MutexBad, Finished: r.Finished, NResults: r.NResults, Rounds: r.Rounds, Errs: r.Errs, TimedOut: r.TimedOut, Sections: r.Sections}
 	done := true
@@ -64,7 +94,7 @@ func execConc(cc ConcCase) (*ConcOutcome, error) {
 			done = false
 		}
 	}
-	if done && len(r.Errs) == 0 {
+	if done && len(r.Errs) == 0 && cc.Fault == nil {
 		rec := &RunRecord{Sc: cc.Sc, Session: s}
 		out.OracleBad = ResultOracle(rec)
 	}
@@ -114,6 +144,26 @@ func c09Plan(ctx *core.Ctx) []ConcCase {
 				Workers: 2 + k%3, Readers: k%2 == 0, LateStart: k%3 == 1,
 				// invalid / unparsable input handed to the update entry points in parallel (the validation-failure and parse-failure paths)
 				Junk: k%3 == 2,
+			})
+			i++
+		}
+	}
+	// a round of one party fails (an altered share / response) while deliveries to it race: only crashes, hangs, races
+	// and results of the aborted party are judged in these runs
+	type fsz struct {
+		proto            pump.Proto
+		n, t, keyN       int
+		typ, field       string
+		reps             int
+	}
+	fs := []fsz{{pump.EcKeygen, 3, 1, 0, "KGRound2Message1", "share", ctx.Pick(2, 8)}, {pump.EcSigning, 3, 2, 5, "SignRound2Message", "c1", ctx.Pick(2, 8)},
+		{pump.EdSigning, 3, 1, 3, "SignRound2Message", "proof_t", ctx.Pick(2, 8)}}
+	for _, f := range fs {
+		for k := 0; k < f.reps; k++ {
+			cases = append(cases, ConcCase{
+				Sc:      Scenario{Proto: f.proto, N: f.n, T: f.t, KeyN: f.keyN, Strategy: "concurrent", Seed: ctx.Seed*9001 + int64(i) + 1},
+				Workers: 2 + k%3, Readers: k%2 == 0,
+				Fault:   &ConcFault{Type: f.typ, Field: f.field, From: 1 + k%2, To: f.n},
 			})
 			i++
 		}
@@ -308,6 +358,15 @@ func C09(ctx *core.Ctx) error {
 		cov.Add("critical_sections", o.Sections)
 		if o.MutexBad != "" {
 			ctx.Report(fmt.Sprintf("C09:mutex:%s", cc.Sc.Proto), fmt.Sprintf("%s: %s", cc.ID(), o.MutexBad), cc)
+		}
+		if cc.Fault != nil {
+			// the recipient of the altered message must not produce a result (its abort is final); errors are expected
+			if v := cc.Fault.To - 1; v >= 0 && v < len(o.NResults) && o.NResults[v] > 0 {
+				ctx.Report(fmt.Sprintf("C09:result-after-abort:%s", cc.Sc.Proto), fmt.Sprintf("%s: party %d was handed an altered %s.%s and still emitted %d result(s) under concurrent delivery (errors: %s)",
+					cc.ID(), cc.Fault.To, cc.Fault.Type, cc.Fault.Field, o.NResults[v], strings.Join(o.Errs, "; ")), cc)
+			}
+			cov.Add("concurrent_runs_with_a_failing_round", 1)
+			continue
 		}
 		if len(o.Errs) > 0 {
 			ctx.Report(fmt.Sprintf("C09:error:%s", cc.Sc.Proto), fmt.Sprintf("concurrent delivery of an honest run %s reported errors: %s", cc.ID(), strings.Join(o.Errs, "; ")), cc)
